@@ -812,6 +812,40 @@ func (g *plGen) anyOf(xs []int) int {
 	return xs[g.r.Intn(len(xs))]
 }
 
+// startNear picks the start bit of an insertion: half of the time a position chosen RELATIVE to
+// a signal that is already in the message — adjacent before / after (legal), overlapping its
+// first or last bit, the same start, strictly inside it, strictly ENCLOSING it — so that every
+// shape of intersection occurs often, not only by chance.
+func (g *plGen) startNear(m int, sg acmelib.Signal, capBits int) int {
+	msg := g.ex.msgs[m]
+	if msg == nil || sg == nil || len(msg.Signals()) == 0 || g.r.Intn(2) == 0 {
+		return g.intArg(capBits)
+	}
+	t := msg.Signals()[g.r.Intn(len(msg.Signals()))]
+	ts, te, n := t.GetRelativeStartPos(), t.GetRelativeStartPos()+t.GetSize(), sg.GetSize()
+	switch g.r.Intn(9) {
+	case 0:
+		return ts - n // adjacent before
+	case 1:
+		return te // adjacent after
+	case 2:
+		return ts - n + 1 // overlaps the first bit
+	case 3:
+		return te - 1 // overlaps the last bit
+	case 4:
+		return ts // same start
+	case 5:
+		return ts + 1 // starts inside
+	case 6, 7:
+		// encloses: starts before and ends after (when the new signal is wide enough)
+		if n > t.GetSize()+1 {
+			return ts - 1 - g.r.Intn(n-t.GetSize()-1)
+		}
+		return ts - 1
+	}
+	return te - n // ends together
+}
+
 func (g *plGen) intArg(hi int) int {
 	switch g.r.Intn(20) {
 	case 0:
@@ -1000,7 +1034,7 @@ func (g *plGen) step() {
 			if r.Intn(3) == 0 {
 				g.emit(sprintf("pl msg.app %d %d", m, s))
 			} else {
-				g.emit(sprintf("pl msg.ins %d %d %d", m, s, g.intArg(capBits)))
+				g.emit(sprintf("pl msg.ins %d %d %d", m, s, g.startNear(m, sg, capBits)))
 			}
 		}
 	case k < 74:
